@@ -72,6 +72,49 @@ def ties_stream(v, findings):
                                              table=df.to_dicts(), partitioned=part, descending=desc))
                     pos += len(grp)
                     total += sum(r_["x"] for r_ in grp)
+    # rank / dense_rank over a single *unmarked* nullable key: where the nulls go is the backend's choice, but every row has a rank
+    # and the ranks are those of one of the two placements (nulls first / nulls last), computed over *all* rows
+    for ti in range(3 if v.tier == "quick" else 40):
+        rows = rng.randint(5, 9)
+        ks = [rng.choice([1, 2, 2, 3, 5, None, None]) for _ in range(rows)]
+        if None not in ks:
+            ks[rng.randrange(rows)] = None
+        df = pl.DataFrame({"i": list(range(rows)), "k": ks, "g": [rng.choice([1, 2]) for _ in range(rows)]}, schema={"i": pl.Int64, "k": pl.Int64, "g": pl.Int64})
+        eng = sqa.create_engine("sqlite://")
+        df.write_database("c05rank", eng)
+
+        def expected(keys, desc, nulls_last, dense):
+            def srt(x):
+                isnull = x is None
+                return ((isnull if nulls_last else not isnull), (0 if isnull else (-x if desc else x)))
+            order = sorted(set(map(srt, keys)))
+            if dense:
+                return [order.index(srt(x)) + 1 for x in keys]
+            return [1 + sum(1 for y in keys if srt(y) < srt(x)) for x in keys]
+
+        for be, desc, dense, part in itertools.product(("polars", "sqlite"), (False, True), (False, True), (False, True)):
+            t = pdt.Table(df, name="c05rank") if be == "polars" else pdt.Table("c05rank", pdt.SqlAlchemy(eng))
+            key = t.k.descending() if desc else t.k
+            fn = pdt.dense_rank if dense else pdt.rank
+            kw = dict(arrange=key, partition_by=t.g) if part else dict(arrange=key)
+            try:
+                out = t >> pdt.mutate(r=fn(**kw)) >> pdt.arrange(t.i) >> pdt.export(pdt.Polars())
+                got = out.get_column("r").to_list()
+            except Exception as e:  # noqa: BLE001
+                problems.append(dict(kind="rank_unmarked_nulls_error", backend=be, table=df.to_dict(as_series=False), exc=type(e).__name__, msg=str(e)[:160]))
+                continue
+            n += 1
+            gs = df.get_column("g").to_list()
+            groups = sorted(set(gs)) if part else [None]
+            ok = True
+            for gv in groups:
+                idx = [j for j in range(rows) if gv is None or gs[j] == gv]
+                sub = [ks[j] for j in idx]
+                g_got = [got[j] for j in idx]
+                if g_got not in (expected(sub, desc, False, dense), expected(sub, desc, True, dense)):
+                    ok = False
+            if not ok:
+                problems.append(dict(kind="rank_unmarked_nulls", backend=be, table=df.to_dict(as_series=False), descending=desc, dense=dense, partitioned=part, got=got))
     groups = {}
     for d in problems:
         groups.setdefault((d["kind"], d["backend"]), []).append(d)
